@@ -1007,6 +1007,9 @@ class KconfigGrammar:
             return_file = ""
             split_lines_idxs: List[int] = []
 
+            # Indentation of the "help" keyword while the lines of its help text are being copied
+            help_keyword_indent: Optional[int] = None
+
             for line_idx, line in enumerate(lines):
                 line = line.expandtabs()
                 # Remove unnecessary whitespaces from otherwise empty line
@@ -1014,8 +1017,18 @@ class KconfigGrammar:
                     return_file += "\n"
                     continue
 
+                # A help text is free text: '#' does not start a comment there and nothing is merged.
+                # It consists of the lines indented more than the "help" keyword (see KconfigHelpBlock).
+                if help_keyword_indent is not None and line_idx not in split_lines_idxs:
+                    if len(line) - len(line.lstrip()) > help_keyword_indent:
+                        return_file += line if line.endswith("\n") else line + "\n"
+                        continue
+                    help_keyword_indent = None
+
                 # Remove inline comments
                 line = remove_inline_comments(line)
+                if line.strip() == "help":
+                    help_keyword_indent = len(line) - len(line.lstrip())
 
                 # Merge lines split with '\' and place blank lines to preserve line numbering.
                 if line_idx in split_lines_idxs:
